@@ -2,7 +2,7 @@
 // mutators of the state word (Set, Unset, SetLast) the sequence of sync/atomic calls they make,
 // the value expressions of those calls in the expression language of Model/Interleave.v, and the
 // control shape around them (LoadStore / CasLoop / AtomicRMW / Unknown); plus the state* bit
-// constants.  The C13 lost-update theorem (Proofs/StateGen.v) is proved about these terms, so a
+// constants.  The C13 lost-update theorem (Proofs/Interleave.v, Props/C13.v) is proved about these terms, so a
 // change of the Go source changes what is proved (or breaks the proof) on the next run.
 //
 // The translator is deliberately narrow: whatever it does not recognise becomes `Unknown`, for
